@@ -297,23 +297,55 @@ def sched_flow(ctx):
         if not disp or not ext:
             ctx.violation('%s:no-cut-site' % adt, f.loc(0), 'cannot find the unit cut / fill sites (fail closed)')
             continue
+        # scheduling-dependent state of this type: the hand-out counter (key of the reorder map), the map itself,
+        # worker bookkeeping
+        sched_fields = {'worker_handles', 'active_workers'}
+        for g in methods_of(F, adt):
+            pg = None
+            for b2, t2, c2 in g.calls():
+                if c2.is_('BTreeMap::remove', 'BTreeMap::insert', 'HashMap::remove', 'HashMap::insert') and t2['args']:
+                    pg = pg or Prov(g)
+                    m0 = pg.operand(t2['args'][0], 0, '%d:T' % b2)
+                    sf = self_field_of(m0)
+                    if sf:
+                        sched_fields.add(sf[0])
+                    if c2.name == 'remove' and len(t2['args']) > 1:
+                        sf2 = self_field_of(pg.operand(t2['args'][1], 0, '%d:T' % b2))
+                        if sf2:
+                            sched_fields.add(sf2[0])
         for kind, b, e in exprs:
             n += 1
-            alts = [e]
             tainted = None
             seen_locals = set()
-            work = [e]
+            seen_fns = set()
+            work = [(f, prov, e)]
             while work:
-                x = work.pop()
+                cf, cprov, x = work.pop()
                 for y in expr_walk(x):
                     if y[0] == 'call' and any(y[1].endswith(sx) for sx in SCHED_SOURCES):
                         tainted = y[1]
-                    if y[0] == 'field' and y[2] in ('worker_handles', 'active_workers', 'out_of_order_chunks'):
+                    if y[0] == 'field' and y[2] in sched_fields and self_field_of(y):
                         tainted = 'self.' + y[2]
-                    if y[0] == 'local' and y[1] not in seen_locals:
-                        seen_locals.add(y[1])
-                        for _, de in prov.def_exprs(y[1]):
-                            work.append(de)
+                    if y[0] == 'local' and (cf.path, y[1]) not in seen_locals:
+                        seen_locals.add((cf.path, y[1]))
+                        for _, de in cprov.def_exprs(y[1]):
+                            work.append((cf, cprov, de))
+                    if y[0] == 'call' and len(y) > 3 and y[3] is not None:
+                        cd = callee_of(y[3])
+                        if cd and cd.get('local'):
+                            h = F.by_path.get(cd['path'])
+                            if h is not None and h.self_adt == f.self_adt and h.d.get('output') in ('bool', 'usize', 'u64', 'u32') and \
+                                    h.path not in seen_fns and not any(c3.is_('WorkStealingQueue::push') for _, _, c3 in h.calls()):
+                                # a helper predicate of the same type: look at what it returns
+                                seen_fns.add(h.path)
+                                ph = Prov(h)
+                                for (bi2, si2, k2, node2) in h.whole_defs(0):
+                                    if k2 == 'assign':
+                                        work.append((h, ph, ph.rvalue(node2['rv'], 0, '%d:%d' % (bi2, si2))))
+                                for sb2 in h.reachable:
+                                    tt2 = h.blocks[sb2]['term']
+                                    if tt2['k'] == 'switch':
+                                        work.append((h, ph, ph.operand(tt2['discr'], 0, '%d:T' % sb2)))
             key = '%s:%s@%s' % (adt, kind, 'bb')
             key = '%s:%s#%d' % (adt, kind, n)
             if tainted:
@@ -369,3 +401,31 @@ def mt_terminator(ctx):
         if not okp:
             ctx.violation('%s:worker-options-no-preset-dict' % g.key, g.loc(0), 'worker options keep the preset dictionary: every '
                           'unit but the first would be encoded against a dictionary the decoder does not have at that point')
+
+
+@rule('WORKER-DRAIN', ['C04', 'C08'], floor=2)
+def worker_drain(ctx):
+    """Reader workers drain the unit's decoder itself to end of stream: the trailer / end-of-chunk
+    verification of LZIPReader / LZMA2Reader only runs on the read that returns 0, so the decoder must
+    be read with read_to_end (or a loop to Ok(0)) directly, never through Take/limit adaptors."""
+    F = ctx.facts
+    n = 0
+    for f, bi, t in worker_fns(F):
+        ctors = [(b, c) for b, tt, c in f.calls() if c.is_('LZMA2Reader::new', 'LZIPReader::new')]
+        if not ctors:
+            continue
+        n += 1
+        key = '%s:decoder-drained-to-eof' % fn_tag(f)
+        drains = [(b, c) for b, tt, c in f.calls() if c.name in ('read_to_end', 'read_exact', 'read', 'read_to_string') and c.trait and last_seg(c.trait) == 'Read']
+        adaptors = [(b, c) for b, tt, c in f.calls() if c.is_('Read::take', 'Read::chain', 'Read::bytes', 'io::copy') or 'Take' in (c.self_ty or '')]
+        good = [d for d in drains if d[1].name == 'read_to_end' and any(x in (d[1].self_ty or '') for x in ('LZMA2Reader', 'LZIPReader'))
+                and 'Take' not in (d[1].self_ty or '')]
+        if good and not adaptors:
+            ctx.ok(key, f.loc(good[0][0]), 'read_to_end directly on %s' % good[0][1].self_ty[:60])
+        else:
+            ctx.violation(key, f.loc((adaptors or drains or ctors)[0][0]), 'the unit decoder is not drained with read_to_end on the decoder itself '
+                          '(adaptors: %s; drains: %s): its final trailer/CRC/size verification, which runs on the read that returns 0, can '
+                          'be skipped and corrupted units are returned as valid' % (
+                              [c.npath for _, c in adaptors], [(c.name, (c.self_ty or '')[:40]) for _, c in drains]))
+    if n == 0:
+        ctx.anchor_missing('reader workers constructing a unit decoder')
